@@ -685,6 +685,12 @@ class BinaryFunction(Function):
 class Log10(UnaryFunction):
     _func_name = "log10"
 
+    def __call__(self, variables, backend=math, **kwargs):
+        if hasattr(backend, "log10"):
+            return super(Log10, self).__call__(variables, backend=backend, **kwargs)
+        (arg,) = self.all_args(variables, backend=backend, **kwargs)
+        return backend.log(arg) / backend.log(10)  # e.g. sympy
+
 
 class Exp(UnaryFunction):
     _func_name = "exp"
